@@ -391,7 +391,7 @@ func allFuncCall(c *core.Ctx, fn *ssa.Function, argPath string) *ssa.Call {
 			continue
 		}
 		callee := an.StaticCallee(&call.Call)
-		if callee == nil || !c.P.InModule(callee) || !isAllQuantifier(callee) {
+		if callee == nil || !c.P.InModule(callee) || !(isAllQuantifier(callee) || isAllQuantifierLoop(c, callee)) {
 			continue
 		}
 		if an.PathOf(call.Call.Args[0]) == argPath {
@@ -483,6 +483,47 @@ func isAllQuantifier(fn *ssa.Function) bool {
 		return false
 	}
 	return true
+}
+
+// isAllQuantifierLoop: the same helper written as a loop —
+//
+//	func(vs []T, f func(T) bool) bool { for _, v := range vs { if !f(v) { return false } }; return true }
+//
+// one call of the function parameter, on the element of a loop that walks every element of the
+// slice parameter, whose false verdict forces the result false.
+func isAllQuantifierLoop(c *core.Ctx, fn *ssa.Function) bool {
+	if len(fn.Params) != 2 || fn.Signature.Results().Len() != 1 || len(fn.Blocks) == 0 {
+		return false
+	}
+	if _, isSlice := fn.Params[0].Type().Underlying().(*types.Slice); !isSlice {
+		return false
+	}
+	if _, isFunc := fn.Params[1].Type().Underlying().(*types.Signature); !isFunc {
+		return false
+	}
+	var pred *ssa.Call
+	n := 0
+	for _, ci := range calls(fn) {
+		call, ok := ci.(*ssa.Call)
+		if !ok {
+			return false
+		}
+		if _, isBuiltin := call.Call.Value.(*ssa.Builtin); isBuiltin {
+			continue
+		}
+		n++
+		if call.Call.Value == ssa.Value(fn.Params[1]) && len(call.Call.Args) == 1 && an.PathOf(call.Call.Args[0]) == "p:"+fn.Params[0].Name()+"[*]" {
+			pred = call
+		}
+	}
+	if pred == nil || n != 1 {
+		return false
+	}
+	if all, _ := forAllLoop(pred.Call.Args[0], pred); !all {
+		return false
+	}
+	ok, _ := impliesFalse(c, fn, pred)
+	return ok
 }
 
 // ---------------------------------------------------------------- NADDR-SPLIT
@@ -993,9 +1034,20 @@ func forAllLoopAt(elem ssa.Value, at *ssa.BasicBlock) (bool, string) {
 	if !ok {
 		return false, "too many iteration paths"
 	}
+	loop := an.LoopBlocks(h)
 	for _, p := range paths {
 		if p[len(p)-1] == h && len(p) > 1 && !p.Contains(at) {
-			return false, "an iteration can go on to the next element without the check"
+			// one iteration of THIS loop: a way back to the header through an enclosing loop starts
+			// the walk over the next slice afresh
+			inside := true
+			for _, b := range p {
+				if !loop[b] {
+					inside = false
+				}
+			}
+			if inside {
+				return false, "an iteration can go on to the next element without the check"
+			}
 		}
 	}
 	return true, ""
@@ -1111,13 +1163,13 @@ func runValSlice(c *core.Ctx) {
 	}
 	// Filter: tag values by letter
 	letterVal := map[string]*ssa.Function{}
-	an.Region(filValid, func(g *ssa.Function) bool { return isAllQuantifier(g) }, func(o an.Occ) {
+	an.Region(filValid, func(g *ssa.Function) bool { return isAllQuantifier(g) || isAllQuantifierLoop(c, g) }, func(o an.Occ) {
 		call, ok := o.In.(*ssa.Call)
 		if !ok || len(call.Call.Args) != 2 {
 			return
 		}
 		callee := an.StaticCallee(&call.Call)
-		if callee == nil || !isAllQuantifier(callee) || o.Path(call.Call.Args[0]) != "rangeval(recv.Tags)" {
+		if callee == nil || !(isAllQuantifier(callee) || isAllQuantifierLoop(c, callee)) || o.Path(call.Call.Args[0]) != "rangeval(recv.Tags)" {
 			return
 		}
 		host := call.Parent()
@@ -1137,6 +1189,53 @@ func runValSlice(c *core.Ctx) {
 			}
 		}
 	})
+	// the validator picked into a function variable by the tag letter and applied in one loop:
+	// `switch c { case 'e': valid = validID; … default: continue }; for _, v := range vals { if !valid(v) { return } }`
+	for _, ci := range calls(filValid) {
+		call, ok := ci.(*ssa.Call)
+		if !ok || call.Call.IsInvoke() || len(call.Call.Args) != 1 || !an.InLoop(call.Block()) {
+			continue
+		}
+		ph, isPhi := call.Call.Value.(*ssa.Phi)
+		if !isPhi || an.PathOf(call.Call.Args[0]) != "rangeval(recv.Tags)[*]" {
+			continue
+		}
+		all, whyAll := forAllLoop(call.Call.Args[0], call)
+		okf, why := impliesFalse(c, filValid, call)
+		if !all {
+			okf, why = false, whyAll
+		}
+		for i, e := range ph.Edges {
+			fv := funcValue(e)
+			if fv == nil {
+				continue
+			}
+			pred := ph.Block().Preds[i]
+			gs := an.Guards(filValid, pred)
+			if iff, isIf := an.LastInstr(pred).(*ssa.If); isIf && len(pred.Succs) == 2 && pred.Succs[0] != pred.Succs[1] {
+				gs = append(gs, an.NormCond(an.Cond{V: iff.Cond, True: pred.Succs[0] == ph.Block(), At: pred}))
+			}
+			for _, g := range gs {
+				b, isB := g.V.(*ssa.BinOp)
+				if !isB || b.Op != token.EQL || !g.True {
+					continue
+				}
+				for _, pair := range [][2]ssa.Value{{b.X, b.Y}, {b.Y, b.X}} {
+					k, isK := an.ConstInt(pair[1])
+					if !isK || k < 'A' || k > 'z' {
+						continue
+					}
+					// the compared byte is the first byte of the tag key
+					if kp := an.PathOf(pair[0]); kp != "rangekey(recv.Tags)[0]" && kp != "rangekey(recv.Tags)[const:0]" {
+						continue
+					}
+					letter := string(rune(k))
+					letterVal[letter] = fv
+					c.Check(okf, nil, fname(c, filValid), "tag["+letter+"]/forced", P.Pos(call.Pos()), "#"+letter+" values: validator false ⇒ invalid", why)
+				}
+			}
+		}
+	}
 	for _, row := range []struct{ letter, same string }{{"e", "ID"}, {"p", "Pubkey"}} {
 		fv := letterVal[row.letter]
 		c.Check(fv != nil && evVal[row.same] != nil && sameFunc(fv, evVal[row.same]), nil, fname(c, filValid), "tag["+row.letter+"]", P.Pos(filValid.Pos()),
@@ -1235,13 +1334,13 @@ func runValSlice(c *core.Ctx) {
 		}
 		// the all-quantifier over the filters, in Valid itself or in a predicate helper
 		var occ *an.Occ
-		an.Region(m, func(g *ssa.Function) bool { return isAllQuantifier(g) }, func(o an.Occ) {
+		an.Region(m, func(g *ssa.Function) bool { return isAllQuantifier(g) || isAllQuantifierLoop(c, g) }, func(o an.Occ) {
 			cl, isCall := o.In.(*ssa.Call)
 			if !isCall || len(cl.Call.Args) != 2 {
 				return
 			}
 			callee := an.StaticCallee(&cl.Call)
-			if callee == nil || !c.P.InModule(callee) || !isAllQuantifier(callee) {
+			if callee == nil || !c.P.InModule(callee) || !(isAllQuantifier(callee) || isAllQuantifierLoop(c, callee)) {
 				return
 			}
 			if o.Path(cl.Call.Args[0]) == "recv."+row.field {
